@@ -124,9 +124,12 @@ class Chip(object):
         self.router = [None] * 1024      # (key, mask, route, app_id)
         self.router[0] = (0xffffffff, 0xffffffff, 0, 0)   # system entry
         self.responsive = True
-        self.vcpu_base = 0xe5007000
-        self.sdram_sys = 0x60e00000
-        self.rtr_copy = 0x60e10000
+        # system areas live at chip-dependent addresses (a controller must
+        # read them from the chip it is talking to)
+        k = (x * 5 + y * 3) % 7
+        self.vcpu_base = 0xe5007000 + 0x1000 * k
+        self.sdram_sys = 0x60e00000 + 0x400 * k
+        self.rtr_copy = 0x60e10000 + 0x8000 * k
         self.iobuf_size = 64
         self.alloc_tag = 0x60e20000
 
